@@ -1009,7 +1009,9 @@ class XsdList(XsdSimpleType):
     def raw_decode(self, obj: str | bytes, validation: str, context: ValidationContext) \
             -> list[AtomicValueType | None]:
         items = []
-        for chunk in self.normalize(obj).split():
+        for chunk in self.normalize(obj).split(' '):
+            if not chunk:
+                continue  # empty list value
             result = self.item_type.raw_decode(chunk, validation, context)
 
             if isinstance(result, list):
